@@ -135,6 +135,36 @@ def gen_cases(tier, seed):
                         terms.append(t2)
             base.update(terms=terms, targets=tg)
         else:
+            if r.random() < 0.25:
+                # several Fock elements that share indices (chains f_ij f_jk,
+                # fans f_ij f_ik, rings): the substitutions of the elements
+                # interact
+                sp = r.choice(['occ', 'virt'])
+                pool = {'occ': ['i', 'j', 'k', 'l', 'm'],
+                        'virt': ['a', 'b', 'c', 'd', 'e']}[sp]
+                xs = r.sample(pool, r.randint(3, 4))
+                shape = r.choice(['chain', 'chain', 'fan', 'ring'])
+                pairs = {'chain': [(xs[q], xs[q + 1])
+                                   for q in range(len(xs) - 1)][:r.randint(2, 3)],
+                         'fan': [(xs[0], xs[1]), (xs[0], xs[2])],
+                         'ring': [(xs[0], xs[1]), (xs[1], xs[0])]}[shape]
+                objs = []
+                for a_, b_ in pairs:
+                    if r.random() < 0.5:
+                        a_, b_ = b_, a_
+                    objs.append({'t': 'anti', 'name': 'f', 'up': [a_],
+                                 'lo': [b_], 'bk': 0})
+                on = sorted({q for pq in pairs for q in pq})
+                ends = r.sample(on, r.randint(1, len(on)))
+                objs.append({'t': 'non', 'name': 'x', 'up': ends})
+                if r.random() < 0.4:
+                    objs.append({'t': 'non', 'name': 'y',
+                                 'up': r.sample(on, r.randint(1, 2))})
+                first = {'pref': r.choice(['1', '-1', '1/2']), 'objs': objs}
+                tg = ir.term_targets(first)
+                base.update(terms=[first], targets=tg, op='diag')
+                cases.append(base)
+                continue
             names = ['f', 'f', 'V', 't1', 't2', 'X', 'd', 'x']
             nterms = r.randint(1, 3)
             plain = r.random() < 0.7   # diagonalisation refuses polynoms
